@@ -299,7 +299,12 @@ func bitAndConst(x string, c int64) string {
 func (fc *fnCtx) doBinOp(ins *ssa.BinOp, st *State) {
 	x, y := fc.get(ins.X), fc.get(ins.Y)
 	if x.Addr != nil || y.Addr != nil {
-		bail("comparison of field/element addresses")
+		var ok1, ok2 bool
+		x, ok1 = fc.materialize(x)
+		y, ok2 = fc.materialize(y)
+		if !ok1 || !ok2 {
+			bail("comparison of field addresses")
+		}
 	}
 	xt := ins.X.Type()
 	var t string
